@@ -30,6 +30,8 @@ POLY = {
     "bar": [(F(1, 4), F(5, 4)), (F(11, 4), F(5, 4)), (F(11, 4), F(7, 4)), (F(1, 4), F(7, 4))],  # thin bar bridging the notch of you / youa
     "tinyo": [(F(-3, 4), F(-3, 4)), (F(3, 4), F(-3, 4)), (F(3, 4), F(3, 4)), (F(-3, 4), F(3, 4))],
     "tinyi": [(F(-1, 4), F(-1, 4)), (F(-1, 4), F(1, 4)), (F(1, 4), F(1, 4)), (F(1, 4), F(-1, 4))],  # clockwise
+    "hbar": [(-3, F(-1, 2)), (3, F(-1, 2)), (3, F(1, 2)), (-3, F(1, 2))],
+    "vbar": [(F(-2, 3), -2), (F(1, 3), -2), (F(1, 3), 2), (F(-2, 3), 2)],
     "small": [(F(1, 2), F(1, 2)), (F(3, 2), F(1, 2)), (F(3, 2), F(3, 2)), (F(1, 2), F(3, 2))],
 }
 
